@@ -134,10 +134,16 @@ def line_case(M, dim):
     return goals
 
 
-def slice_pairs_case(M, npts, dim):
+def slice_pairs_case(M, npts, dim, int_cloud=None):
     """all-pairs branch (not more points than dimensions): every returned point is on the plane and on a segment between a point below and a point above"""
     from dreye.api.project import proj_P_to_simplex
-    P = M.real("P", (npts, dim), sample=lambda r, s: r.uniform(0.0, 2.0, size=s))
+    if int_cloud is not None:
+        # an integer-typed cloud (lattice points): exact constants in the symbolic / exact runs, a genuine int64 array in the run of the real code
+        P = np.array(int_cloud, dtype=np.int64)
+        if M.symbolic:
+            P = symnp.const(P.astype(float))
+    else:
+        P = M.real("P", (npts, dim), sample=lambda r, s: r.uniform(0.0, 2.0, size=s))
     for v in np.asarray(P).ravel():
         M.assume(v >= 0)
     c = M.real("c", (), sample=lambda r, s: r.uniform(1.0, 2.0 * dim - 1.0))
@@ -225,6 +231,8 @@ def cases(tier, seed):
         add(f"line to plane dim={dim}", "line_case", dim=dim)
     for npts, dim in ((2, 2), (2, 3), (3, 3)):
         add(f"slice (all pairs) points={npts} dim={dim}", "slice_pairs_case", npts=npts, dim=dim)
+    add("slice (all pairs) integer-typed cloud 3 points dim=3", "slice_pairs_case", npts=3, dim=3, int_cloud=[[0, 0, 1], [2, 1, 1], [0, 3, 0]], opts=dict(float_strict=True, n_validate=3))
+    add("slice (all pairs) integer-typed cloud 2 points dim=2", "slice_pairs_case", npts=2, dim=2, int_cloud=[[1, 0], [1, 3]], opts=dict(float_strict=True, n_validate=3))
     for npts, dim in ((4, 2), (6, 3), (7, 4), (8, 5), (3, 4)):
         add(f"exact slice on sampled concrete clouds points={npts} dim={dim}", "slice_exact_case", npts=npts, dim=dim, opts=dict(skip_sym=True, n_validate=(8 if big else 4), max_paths=200))
     return C
